@@ -11,69 +11,71 @@
 using sim::K;
 
 #define WRAP extern "C" __attribute__((visibility("default")))
+// a signal that arrived while the call was in progress is handled on the way back to user code, before anything else the program does
+template <class T> static inline T AFTER(T v) { if (K) K->after_syscall(); return v; }
 
 WRAP int __wrap_open(const char *path, int flags, ...) {
   int mode = 0;
   if (flags & O_CREAT) { va_list ap; va_start(ap, flags); mode = va_arg(ap, int); va_end(ap); }
-  return K->sys_open(path, flags, mode);
+  return AFTER(K->sys_open(path, flags, mode));
 }
-WRAP int __wrap_close(int fd) { return K->sys_close(fd); }
-WRAP ssize_t __wrap_read(int fd, void *b, size_t n) { return K->sys_read(fd, b, n); }
-WRAP ssize_t __wrap_write(int fd, const void *b, size_t n) { return K->sys_write(fd, b, n); }
-WRAP off_t __wrap_lseek(int fd, off_t o, int w) { return K->sys_lseek(fd, o, w); }
-WRAP int __wrap_fstat(int fd, struct stat *st) { return K->sys_fstat(fd, st); }
-WRAP int __wrap_stat(const char *p, struct stat *st) { return K->sys_stat(p, st); }
-WRAP int __wrap_lstat(const char *p, struct stat *st) { return K->sys_stat(p, st); }
-WRAP int __wrap_fsync(int fd) { return K->sys_fsync(fd); }
-WRAP int __wrap_ftruncate(int fd, off_t l) { return K->sys_ftruncate(fd, l); }
-WRAP int __wrap_link(const char *a, const char *b) { return K->sys_link(a, b); }
-WRAP int __wrap_unlink(const char *p) { return K->sys_unlink(p); }
-WRAP int __wrap_rename(const char *a, const char *b) { return K->sys_rename(a, b); }
-WRAP int __wrap_utimes(const char *p, const struct timeval tv[2]) { return K->sys_utimes(p, tv); }
-WRAP int __wrap_mkdir(const char *p, mode_t m) { return K->sys_mkdir(p, (int)m); }
-WRAP mode_t __wrap_umask(mode_t m) { return K->sys_umask(m); }
-WRAP int __wrap_chdir(const char *p) { return K->sys_chdir(p); }
+WRAP int __wrap_close(int fd) { return AFTER(K->sys_close(fd)); }
+WRAP ssize_t __wrap_read(int fd, void *b, size_t n) { return AFTER(K->sys_read(fd, b, n)); }
+WRAP ssize_t __wrap_write(int fd, const void *b, size_t n) { return AFTER(K->sys_write(fd, b, n)); }
+WRAP off_t __wrap_lseek(int fd, off_t o, int w) { return AFTER(K->sys_lseek(fd, o, w)); }
+WRAP int __wrap_fstat(int fd, struct stat *st) { return AFTER(K->sys_fstat(fd, st)); }
+WRAP int __wrap_stat(const char *p, struct stat *st) { return AFTER(K->sys_stat(p, st)); }
+WRAP int __wrap_lstat(const char *p, struct stat *st) { return AFTER(K->sys_stat(p, st)); }
+WRAP int __wrap_fsync(int fd) { return AFTER(K->sys_fsync(fd)); }
+WRAP int __wrap_ftruncate(int fd, off_t l) { return AFTER(K->sys_ftruncate(fd, l)); }
+WRAP int __wrap_link(const char *a, const char *b) { return AFTER(K->sys_link(a, b)); }
+WRAP int __wrap_unlink(const char *p) { return AFTER(K->sys_unlink(p)); }
+WRAP int __wrap_rename(const char *a, const char *b) { return AFTER(K->sys_rename(a, b)); }
+WRAP int __wrap_utimes(const char *p, const struct timeval tv[2]) { return AFTER(K->sys_utimes(p, tv)); }
+WRAP int __wrap_mkdir(const char *p, mode_t m) { return AFTER(K->sys_mkdir(p, (int)m)); }
+WRAP mode_t __wrap_umask(mode_t m) { return AFTER(K->sys_umask(m)); }
+WRAP int __wrap_chdir(const char *p) { return AFTER(K->sys_chdir(p)); }
 WRAP int __wrap_fcntl(int fd, int cmd, ...) {
   va_list ap; va_start(ap, cmd); long arg = va_arg(ap, long); va_end(ap);
-  return K->sys_fcntl(fd, cmd, arg);
+  return AFTER(K->sys_fcntl(fd, cmd, arg));
 }
 WRAP DIR *__wrap_opendir(const char *p) { return (DIR *)K->sys_opendir(p); }
-WRAP struct dirent *__wrap_readdir(DIR *d) { return K->sys_readdir((sim::DirHandle *)d); }
-WRAP int __wrap_closedir(DIR *d) { return K->sys_closedir((sim::DirHandle *)d); }
-WRAP int __wrap_flock(int fd, int op) { return K->sys_flock(fd, op); }
-WRAP int __wrap_pipe(int fds[2]) { return K->sys_pipe(fds); }
-WRAP int __wrap_select(int n, fd_set *r, fd_set *w, fd_set *e, struct timeval *tv) { return K->sys_select(n, r, w, e, tv); }
-WRAP unsigned __wrap_sleep(unsigned s) { return K->sys_sleep(s); }
-WRAP unsigned __wrap_alarm(unsigned s) { return K->sys_alarm(s); }
-WRAP int __wrap_sigaction(int s, const struct sigaction *a, struct sigaction *o) { return K->sys_sigaction(s, a, o); }
-WRAP int __wrap_sigprocmask(int h, const sigset_t *s, sigset_t *o) { return K->sys_sigprocmask(h, s, o); }
-WRAP pid_t __wrap_fork(void) { return K->sys_fork(); }
-WRAP pid_t __wrap_vfork(void) { return K->sys_fork(); }
-WRAP int __wrap_execv(const char *p, char *const argv[]) { return K->sys_execve(p, argv, nullptr, false); }
-WRAP int __wrap_execvp(const char *p, char *const argv[]) { return K->sys_execve(p, argv, nullptr, true); }
-WRAP int __wrap_execve(const char *p, char *const argv[], char *const envp[]) { return K->sys_execve(p, argv, envp, false); }
-WRAP pid_t __wrap_waitpid(pid_t p, int *st, int o) { return K->sys_waitpid(p, st, o); }
-WRAP pid_t __wrap_wait(int *st) { return K->sys_waitpid(-1, st, 0); }
+WRAP struct dirent *__wrap_readdir(DIR *d) { return AFTER(K->sys_readdir((sim::DirHandle *)d)); }
+WRAP int __wrap_closedir(DIR *d) { return AFTER(K->sys_closedir((sim::DirHandle *)d)); }
+WRAP int __wrap_flock(int fd, int op) { return AFTER(K->sys_flock(fd, op)); }
+WRAP int __wrap_pipe(int fds[2]) { return AFTER(K->sys_pipe(fds)); }
+WRAP int __wrap_select(int n, fd_set *r, fd_set *w, fd_set *e, struct timeval *tv) { return AFTER(K->sys_select(n, r, w, e, tv)); }
+WRAP unsigned __wrap_sleep(unsigned s) { return AFTER(K->sys_sleep(s)); }
+WRAP unsigned __wrap_alarm(unsigned s) { return AFTER(K->sys_alarm(s)); }
+WRAP int __wrap_sigaction(int s, const struct sigaction *a, struct sigaction *o) { return AFTER(K->sys_sigaction(s, a, o)); }
+WRAP int __wrap_sigprocmask(int h, const sigset_t *s, sigset_t *o) { return AFTER(K->sys_sigprocmask(h, s, o)); }
+WRAP pid_t __wrap_fork(void) { return AFTER(K->sys_fork()); }
+WRAP pid_t __wrap_vfork(void) { return AFTER(K->sys_fork()); }
+WRAP int __wrap_execv(const char *p, char *const argv[]) { return AFTER(K->sys_execve(p, argv, nullptr, false)); }
+WRAP int __wrap_execvp(const char *p, char *const argv[]) { return AFTER(K->sys_execve(p, argv, nullptr, true)); }
+WRAP int __wrap_execve(const char *p, char *const argv[], char *const envp[]) { return AFTER(K->sys_execve(p, argv, envp, false)); }
+WRAP pid_t __wrap_waitpid(pid_t p, int *st, int o) { return AFTER(K->sys_waitpid(p, st, o)); }
+WRAP pid_t __wrap_wait(int *st) { return AFTER(K->sys_waitpid(-1, st, 0)); }
 WRAP void __wrap__exit(int s) { K->sys_exit(s); }
 WRAP void __wrap_exit(int s) { K->sys_exit(s); }
-WRAP int __wrap_kill(pid_t p, int s) { return K->sys_kill(p, s); }
-WRAP time_t __wrap_time(time_t *t) { return K->sys_time(t); }
-WRAP pid_t __wrap_getpid(void) { return K->sys_getpid(); }
+WRAP int __wrap_kill(pid_t p, int s) { return AFTER(K->sys_kill(p, s)); }
+WRAP time_t __wrap_time(time_t *t) { return AFTER(K->sys_time(t)); }
+WRAP pid_t __wrap_getpid(void) { return AFTER(K->sys_getpid()); }
 WRAP pid_t __wrap_getppid(void) { return K->cp()->ppid; }
-WRAP uid_t __wrap_getuid(void) { return K->sys_getuid(); }
+WRAP uid_t __wrap_getuid(void) { return AFTER(K->sys_getuid()); }
 WRAP uid_t __wrap_geteuid(void) { return K->cp()->euid; }
 WRAP gid_t __wrap_getgid(void) { return K->cp()->gid; }
 WRAP gid_t __wrap_getegid(void) { return K->cp()->egid; }
-WRAP int __wrap_setuid(uid_t u) { return K->sys_setuid(u); }
-WRAP int __wrap_setgid(gid_t g) { return K->sys_setgid(g); }
-WRAP int __wrap_setgroups(size_t n, const gid_t *g) { return K->sys_setgroups(n, g); }
-WRAP int __wrap_initgroups(const char *u, gid_t g) { return K->sys_initgroups(u, g); }
-WRAP struct passwd *__wrap_getpwnam(const char *n) { return K->sys_getpwnam(n); }
-WRAP struct group *__wrap_getgrnam(const char *n) { return K->sys_getgrnam(n); }
-WRAP int __wrap_gethostname(char *b, size_t n) { return K->sys_gethostname(b, n); }
-WRAP void *__wrap_malloc(size_t n) { return K->sys_malloc(n); }
-WRAP void *__wrap_realloc(void *p, size_t n) { return K->sys_realloc(p, n); }
-WRAP void *__wrap_calloc(size_t a, size_t b) { return K->sys_calloc(a, b); }
+WRAP int __wrap_setuid(uid_t u) { return AFTER(K->sys_setuid(u)); }
+WRAP int __wrap_setgid(gid_t g) { return AFTER(K->sys_setgid(g)); }
+WRAP int __wrap_setgroups(size_t n, const gid_t *g) { return AFTER(K->sys_setgroups(n, g)); }
+WRAP int __wrap_initgroups(const char *u, gid_t g) { return AFTER(K->sys_initgroups(u, g)); }
+WRAP struct passwd *__wrap_getpwnam(const char *n) { return AFTER(K->sys_getpwnam(n)); }
+WRAP struct group *__wrap_getgrnam(const char *n) { return AFTER(K->sys_getgrnam(n)); }
+WRAP int __wrap_gethostname(char *b, size_t n) { return AFTER(K->sys_gethostname(b, n)); }
+WRAP void *__wrap_malloc(size_t n) { return AFTER(K->sys_malloc(n)); }
+WRAP void *__wrap_realloc(void *p, size_t n) { return AFTER(K->sys_realloc(p, n)); }
+WRAP void *__wrap_calloc(size_t a, size_t b) { return AFTER(K->sys_calloc(a, b)); }
 WRAP void __wrap_free(void *p) { K->sys_free(p); }
 WRAP char *__wrap_strdup(const char *s) { size_t n = strlen(s) + 1; char *p = (char *)K->sys_malloc(n); if (p) memcpy(p, s, n); return p; }
 
